@@ -528,7 +528,7 @@ func (g *gen) managerHistory(n int, withHooks, withDeviant bool) {
 					line = g.pinnedPatch(r.Intn(nPinnedFields), false)
 				}
 			default:
-				g.w.doRestart(g.tr, parseLine(fmt.Sprintf("restart mode=%s ev=%s", vhlib.Pick(r, "clean", "clean", "abrupt"), g.eventScope())))
+				g.w.doRestart(g.tr, parseLine(g.restartLine(g.eventScope())))
 			}
 		}
 		if g.w.diverged {
@@ -651,10 +651,10 @@ func (g *gen) fieldsHistory() {
 			}
 		}
 		if r.Chance(1, 6) {
-			g.w.doRestart(g.tr, parseLine(fmt.Sprintf("restart mode=%s ev=test", vhlib.Pick(r, "clean", "clean", "abrupt"))))
+			g.w.doRestart(g.tr, parseLine(g.restartLine("test")))
 		}
 	}
-	g.w.doRestart(g.tr, parseLine("restart mode=clean ev=test"))
+	g.w.doRestart(g.tr, parseLine("restart mode=clean ev=test mig=3"))
 }
 
 // hooksHistory: every mutating operation of the webhook manager (register, update, remove — each with the fault
@@ -683,9 +683,7 @@ func (g *gen) hooksHistory() {
 			g.sweep(fmt.Sprintf("name=W.Remove id=%d", b.hooks[r.Intn(len(b.hooks))]))
 		}
 	}
-	restart := func() {
-		g.w.doRestart(g.tr, parseLine(fmt.Sprintf("restart mode=%s ev=%s", vhlib.Pick(r, "clean", "clean", "abrupt"), g.eventScope())))
-	}
+	restart := func() { g.w.doRestart(g.tr, parseLine(g.restartLine(g.eventScope()))) }
 	register()
 	register()
 	register()
@@ -745,6 +743,69 @@ func (g *gen) budgets(line string) {
 			}
 		}
 	}
+}
+
+// restartLine: clean or abrupt; half of the clean restarts find 1..5 pending (re-runnable) schema migrations.
+func (g *gen) restartLine(ev string) string {
+	mode := vhlib.Pick(g.r, "clean", "clean", "abrupt")
+	line := fmt.Sprintf("restart mode=%s ev=%s", mode, ev)
+	if mode == "clean" && g.r.Chance(1, 2) {
+		line += fmt.Sprintf(" mig=%d", 1+g.r.Intn(maxPendingMigrations))
+	}
+	return line
+}
+
+// migrationHistory: v1 and v2 contracts with usage in every status (pending, rejected, active, successful, failed,
+// renewed), accounts funded from both kinds of contracts, sector lists — reopened with 1..5 pending migrations.
+func (g *gen) migrationHistory() {
+	r, b := g.r, g.w.b
+	g.tr.Line("reset profile=M hooks=0 migrations=1", "")
+	g.setup("name=S.UpdateSettings v=3")
+	g.setup("name=AddVolume v=1 ro=0")
+	b.nextVol = 1
+	g.setup("name=GrowVolume v=1 n=24")
+	g.setup("name=SetAvailable v=1 av=1")
+	g.setup("name=StoreSectors from=1 to=12")
+	for i := 0; i < 3; i++ {
+		g.setup(g.addContractLine(false, true))
+		g.setup(g.addContractLine(true, true))
+	}
+	work := func() {
+		for _, c := range g.liveContracts(false, true) {
+			if r.Chance(2, 3) {
+				g.setup(fmt.Sprintf("name=M.Commit c=%d rev=%d ws=%d we=%d old=%s acts=%s u=%s", c.n, c.rev+1, c.ws, c.we, listOf(c.roots), g.acts(c.roots), g.u8(15, false)))
+			}
+			if r.Chance(1, 2) {
+				g.setup(fmt.Sprintf("name=A.Credit a=%d c=%d rev=%d amt=%d cost=%d", 1+r.Intn(nAccounts), c.n, c.rev+1, 10+r.Intn(40), 1+r.Intn(4)))
+			}
+		}
+		for _, c := range g.liveContracts(true, true) {
+			if r.Chance(2, 3) {
+				g.setup(fmt.Sprintf("name=M.ReviseV2Contract c=%d rev=%d new=%s u=%s", c.n, c.rev+1, listOf(g.newRoots(c.roots)), g.u8(15, true)))
+			}
+			if r.Chance(1, 2) {
+				g.setup(fmt.Sprintf("name=RHP4CreditAccounts c=%d rev=%d ws=%d we=%d locked=5 deps=[%d:%d] u=%s", c.n, c.rev+1, c.ws, c.we, 1+r.Intn(nAccounts), 10+r.Intn(30), g.u8(5, true)))
+			}
+		}
+	}
+	for round := 0; round < 6; round++ {
+		work()
+		if round == 1 || round == 3 {
+			if cs := g.liveContracts(true, true); len(cs) > 0 {
+				c := cs[r.Intn(len(cs))]
+				b.nextC++
+				g.setup(fmt.Sprintf("name=M.RenewV2Contract c=%d n=%d rev=0 ws=%d we=%d locked=0 roots=%s u=%s", c.n, b.nextC, c.we+5, c.we+9, listOf(c.roots), g.u8(10, true)))
+			}
+			if cs := g.liveContracts(false, true); len(cs) > 0 {
+				c := cs[r.Intn(len(cs))]
+				b.nextC++
+				g.setup(fmt.Sprintf("name=M.RenewContract c=%d n=%d rev=1 ws=%d we=%d locked=%d neg=0 roots=%s cu=%s ru=%s", c.n, b.nextC, c.we+5, c.we+9, r.Intn(30), listOf(c.roots), g.u8(10, false), g.u8(10, false)))
+			}
+		}
+		g.setup(fmt.Sprintf("name=UpdateChainState revert=0 apply=%d seed=%d", 2+r.Intn(2), r.Intn(1<<20)))
+		g.w.doRestart(g.tr, parseLine(fmt.Sprintf("restart mode=clean ev=test mig=%d", 1+(round+r.Intn(2))%maxPendingMigrations)))
+	}
+	g.w.doRestart(g.tr, parseLine(fmt.Sprintf("restart mode=clean ev=test mig=%d", maxPendingMigrations)))
 }
 
 // eventScope picks the scope of the test event: one that a registered hook listens to, if there is any.
@@ -953,7 +1014,7 @@ func TestEngine(t *testing.T) {
 		kinds := []string{"S", "M", "I", "Mh", "R", "S", "F", "V", "Md", "B", "H", "M"}
 		if cfg.Extra["c18"] == "1" {
 			// C18: histories with managers and restarts
-			kinds = []string{"M", "V", "V", "F", "Md", "I", "Mh", "F", "V", "F", "H", "H"}
+			kinds = []string{"M", "V", "G", "F", "Md", "I", "Mh", "F", "V", "G", "H", "V"}
 		}
 		kind := kinds[(int(cfg.Seed%uint64(len(kinds)))+i)%len(kinds)]
 		if only != "" {
@@ -962,7 +1023,7 @@ func TestEngine(t *testing.T) {
 		func() {
 			profile := "S"
 			switch kind {
-			case "M", "Mh", "Md", "F", "H":
+			case "M", "Mh", "Md", "F", "H", "G":
 				profile = "M"
 			case "V":
 				profile = "V"
@@ -991,6 +1052,8 @@ func TestEngine(t *testing.T) {
 				g.fieldsHistory()
 			case "H":
 				g.hooksHistory()
+			case "G":
+				g.migrationHistory()
 			}
 		}()
 	}
